@@ -5,6 +5,7 @@ import (
 	"fmt"
 	"io"
 	"sync"
+	"sync/atomic"
 	"time"
 
 	"github.com/pion/interceptor"
@@ -48,11 +49,25 @@ type Member struct {
 // PassThroughNames lists the non-buffering interceptors of C01's chains.
 var PassThroughNames = []string{
 	"nack-generator", "nack-generator-limited", "nack-responder", "nack-responder-rtx", "nack-responder-small", "report-receiver", "report-sender", "twcc-sender", "twcc-header-extension",
-	"rfc8888", "rtpfb", "stats", "packetdump-sender", "packetdump-receiver", "packetdump-sender-filtered", "packetdump-receiver-filtered", "intervalpli", "flexfec", "cc-noop-pacer", "cc-user-pacer", "noop",
+	"rfc8888", "rtpfb", "stats", "packetdump-sender", "packetdump-receiver", "packetdump-sender-filtered", "packetdump-receiver-filtered", "packetdump-sender-custom", "packetdump-receiver-custom", "intervalpli", "flexfec", "cc-noop-pacer", "cc-user-pacer", "noop",
 }
 
 // AllNames adds the buffering / pacing ones.
 var AllNames = append(append([]string{}, PassThroughNames...), "jitterbuffer", "pacing", "cc-leaky-bucket")
+
+// countingPacketLogger is a packetdump.PacketLogger of the application: it looks at what it is shown for the duration of the
+// call and keeps nothing.
+type countingPacketLogger struct {
+	rtpBytes, rtcpPkts atomic.Int64
+}
+
+func (l *countingPacketLogger) LogRTPPacket(h *rtp.Header, payload []byte, _ interceptor.Attributes) {
+	l.rtpBytes.Add(int64(h.MarshalSize() + len(payload)))
+}
+
+func (l *countingPacketLogger) LogRTCPPackets(pkts []rtcp.Packet, _ interceptor.Attributes) {
+	l.rtcpPkts.Add(int64(len(pkts)))
+}
 
 // closeFailsOncePacer is a legal gcc.Pacer of the application.
 type closeFailsOncePacer struct {
@@ -161,6 +176,14 @@ func NewMember(name string, interval time.Duration) Member { //nolint:cyclop
 			}),
 		}
 		if name == "packetdump-sender-filtered" {
+			m.Factory = must(packetdump.NewSenderInterceptor(opts...))
+		} else {
+			m.Factory = must(packetdump.NewReceiverInterceptor(opts...))
+		}
+	case "packetdump-sender-custom", "packetdump-receiver-custom":
+		// the application's own packet logger in place of the built-in one (packetdump.PacketLog)
+		opts := []packetdump.PacketDumperOption{packetdump.PacketLog(&countingPacketLogger{}), packetdump.WithLoggerFactory(lf)}
+		if name == "packetdump-sender-custom" {
 			m.Factory = must(packetdump.NewSenderInterceptor(opts...))
 		} else {
 			m.Factory = must(packetdump.NewReceiverInterceptor(opts...))
